@@ -1935,7 +1935,9 @@ namespace bloch::compiler {
     void SemanticAnalyser::visit(DestroyStatement& node) {
         if (node.target) {
             auto t = inferTypeInfo(node.target.get());
-            if (t.className.empty() && t.value != ValueType::Null) {
+            bool isArray = t.className.size() >= 2 &&
+                           t.className.rfind("[]") == t.className.size() - 2;
+            if ((t.className.empty() && t.value != ValueType::Null) || isArray) {
                 throw BlochError(ErrorCategory::Semantic, node.line, node.column,
                                  "'destroy' requires a class reference");
             }
